@@ -105,6 +105,9 @@ struct StModel {
     bj::object out;
     auto insret = [&](std::pair<SH, bool> r) {
       out["ret"] = r.second ? "new" : (r.first != st.null_simplex() ? "lowered" : "none");
+      if constexpr (Options::store_key) {   // "If no key has been assigned, returns null_key()"
+        if (r.second && r.first != st.null_simplex() && ST::key(r.first) != st.null_key()) out["exception"] = "a simplex reported as new already has a key";
+      }
     };
     if (op == "insert") {
       insret(st.insert_simplex(lab(ints(act.at("s"))), tofv(act.at("f"))));
@@ -301,12 +304,37 @@ struct StModel {
       qset.push_back(q);
     }
     o["q_set"] = qset;
+    // for_each_simplex visits every simplex exactly once with its dimension; returning true skips the children
+    {
+      std::multiset<std::vector<int>> seen;
+      bool dim_ok = true;
+      c.for_each_simplex([&](SH sh, int dim) { seen.insert(vertices_of(sh)); if (dim != c.dimension(sh)) dim_ok = false; });
+      std::multiset<std::vector<int>> want;
+      for (auto& p : K) want.insert(p.first);
+      if (seen != want) failed.push_back("for_each_simplex does not visit every simplex exactly once");
+      if (!dim_ok) failed.push_back("for_each_simplex passes a wrong dimension");
+      std::size_t roots = 0, nvert = 0;
+      c.for_each_simplex([&](SH, int dim) -> bool { ++roots; if (dim == 0) ++nvert; return true; });
+      if (roots != nvert || nvert != c.num_vertices()) failed.push_back("for_each_simplex with a callback returning true does not skip the children");
+    }
     // filtration order (the cache must be refreshed explicitly after modifications, as documented)
     if constexpr (Options::store_filtration) {
       st.initialize_filtration();
       bj::array fl;
       for (auto sh : st.filtration_simplex_range()) fl.push_back(jarr(vertices_of(sh)));
       o["filt"] = fl;
+      // simplex(idx) is the idx-th simplex of the filtration; keys are user data that read back as assigned
+      {
+        std::size_t idx = 0;
+        for (auto sh : st.filtration_simplex_range()) {
+          if (st.simplex(static_cast<typename ST::Simplex_key>(idx)) != sh) failed.push_back("simplex(idx) is not the idx-th simplex of the filtration");
+          if constexpr (Options::store_key) {
+            st.assign_key(sh, static_cast<typename ST::Simplex_key>(idx + 3));
+            if (ST::key(sh) != static_cast<typename ST::Simplex_key>(idx + 3)) failed.push_back("key(sh) is not the key assigned by assign_key");
+          }
+          ++idx;
+        }
+      }
       st.initialize_filtration(true);
       bj::array fl2;
       for (auto sh : st.filtration_simplex_range()) fl2.push_back(jarr(vertices_of(sh)));
